@@ -10,7 +10,7 @@ import verifylib as V
 ASSUME = [
     "per alert ID the times of the points (stream) / batches are non-decreasing; overlapping batch windows (period > every) are not explored",
     "every point carries every field the lambdas read; errors the task reports anyway are recorded (nerr/nerrc on the Reset lines, node_errors_reported) and the outputs are judged as usual; a missing field is C04/C05 territory",
-    "the alert ID has no state restored from an earlier run of the task (C08 covers restore); no inhibitors",
+    "task restarts (same daemon, topic kept in memory) are explored only where the topic's memory is the true state: no flapping, recoveries delivered; restart from persisted storage / crash points is C08; no inhibitors; one group per alert ID",
     "with flapping() the documentation fixes the hysteresis on a percentage of state changes but not the weighting: at verdict level the suppression of an event is left open unless the recorded history (last `history` levels) contains no state change",
     "batch event time: the documentation says 'time of the point that triggered the event'; accepted = a point of the batch that has the event's level, or the batch time for all() and for recoveries",
     "handler buffers (65536 events) never fill: a chunk offers fewer steps than that and any collect error aborts the check (exit 2)",
@@ -147,6 +147,10 @@ def run(sc, tier, seed):
     obs = model_check(sc, "AlertNode_prefix.cfg", workers=4, timeout=600, expect_violation={"EventCarries"})
     if obs["violated"] != "EventCarries":
         raise V.Broken("AlertNode_prefix.cfg no longer yields the EventCarries counterexample: the invariant has become vacuous")
+    # same for the restore as it was before fix 06befa5 (durations restarted from the last event after a task restart)
+    obs = model_check(sc, "AlertNode_prerestore.cfg", workers=4, timeout=600, expect_violation={"EventCarries"})
+    if obs["violated"] != "EventCarries":
+        raise V.Broken("AlertNode_prerestore.cfg no longer yields the EventCarries counterexample: the Restart action has become vacuous")
     # B1: systematic + seeded random sequences through real tasks, every step validated by TLC
     out, meta = V.run_driver(sc, "c01", tier, seed, timeout=3000)
     R.add_meta(meta)
